@@ -30,6 +30,69 @@ SERIALISERS = ["*sync::mutex::Mutex<T>::lock", "*Mutex::lock", "*Semaphore::acqu
                "*Mutex::lock_owned", "*Mutex::try_lock"]
 
 
+MEASURES = ("::len", "::is_empty", "::capacity", "::count", "::size_hint")
+
+
+def _element_components_reach(bodies):
+    """For the bodies of one item (function + its closures): {component index: does that component of a tuple-typed element reach the
+    body's result by a value-carrying flow}.  An element is a local whose type is a tuple or a reference to one; a component is read
+    by a projection `.i` of it; flows through measuring calls (`len`, `is_empty`, …) carry no value; an element handed whole to a call
+    whose result reaches the output covers every component."""
+    out = {}
+    for b in bodies:
+        prep(b)
+        TUP = r"(&('\w+ )?(mut )?)*\(.*,.*\)"
+        elems = {int(k) for k, t in b.locals.items() if re.match("^" + TUP + "$", str(t)) and "PublicKey" in str(t)}
+        # `for (k, c) in outputs` binds straight out of the iterator's `Option<&(K, C)>`: the element is the payload place
+        holders = {int(k) for k, t in b.locals.items() if re.match(r"^core::option::Option<" + TUP + ">$", str(t)) and "PublicKey" in str(t)}
+        if not elems and not holders:
+            continue
+        stop = {blk["term"]["d"][0] for blk in b.blocks if blk["term"]["k"] == "call" and (blk["term"].get("ncallee") or blk["term"].get("ngen") or "").endswith(MEASURES)}
+        ta = Taint(b, through="all")
+        ncomp = {}
+        for e in elems | holders:
+            t = str(b.locals[str(e)])
+            if t.startswith("core::option::Option<"):
+                t = t[len("core::option::Option<"):-1]
+            inner = t[t.index("("):]
+            depth, n = 0, 1
+            for ch in inner[1:-1]:
+                depth += ch in "([<"
+                depth -= ch in ")]>"
+                n += (ch == "," and depth == 0)
+            ncomp[e] = n
+        reads = {}
+        whole = False
+        for blk in b.blocks:
+            if blk["cleanup"]:
+                continue
+            for st in blk["stmts"]:
+                rv = st["rv"]
+                pl = rv["a"][1] if rv["k"] in ("use", "cast") and rv["a"][0] in ("cp", "mv") else rv.get("p") if rv["k"] in ("ref", "rawptr") else None
+                if not pl or pl[0] not in (elems | holders) or len(st["d"]) != 1:
+                    continue
+                fs = [x for x in pl[1:] if x != "*"]
+                if pl[0] in holders:
+                    if fs[:2] != ["@Some", ".0"]:
+                        continue
+                    fs = fs[2:]
+                if fs and fs[0][1:].isdigit():
+                    reads.setdefault(int(fs[0][1:]), set()).add(st["d"][0])
+                    if st["d"][0] in elems:      # a component that is itself a tuple is not an element of the list
+                        pass
+            t = blk["term"]
+            if t["k"] == "call" and not (t.get("ncallee") or t.get("ngen") or "").endswith(MEASURES):
+                for a in t["args"]:
+                    if a[0] in ("cp", "mv") and a[1][0] in elems and all(x == "*" for x in a[1][1:]) and not (t.get("ncallee") or "").endswith(("::next", "::into_iter", "::iter")):
+                        if 0 in ta.closure({t["d"][0]}, stop_at=stop):
+                            whole = True
+        n = max(ncomp.values())
+        for i in range(n):
+            okc = whole or (i in reads and 0 in ta.closure(reads[i], stop_at=stop))
+            out[i] = out.get(i, False) or okc
+    return out
+
+
 def merge_rules(R, pfx="C07"):
     """How each mutable kind is validated, compared with / merged into the local copy and stored (shared with C09, where the
     same functions are what replication between neighbours converges through)."""
@@ -487,6 +550,17 @@ def transaction_rules(R, pfx):
                     if not whole:
                         ok = False
                         R.viol(pfx + ".tx.signed", "param-partial:%s" % f, "bytes_to_sign covers only part of `%s` (%s), not the whole value" % (f, ", ".join("." + x for x in sorted(part)) or "a projection"), bt, bt.lines[0])
+            # element-wise: `outputs` is a list of (key, content) pairs — *each component* of an element has to reach the bytes by a
+            # value-carrying flow (seed C07-r6: the loop appended the output's key and, by a slip, the transaction's own content; the
+            # output's content only reached `len()` / `reserve`), in the function itself or in the closure that flattens an element
+            comp = _element_components_reach(F.item(TX + "::bytes_to_sign"))
+            for i_, okc in sorted(comp.items()):
+                if not okc:
+                    ok = False
+                    R.viol(pfx + ".tx.signed", "element-partial:outputs.%d" % i_, "bytes_to_sign does not put component %d of every `outputs` element (key, content) into the signed bytes" % i_, bt, bt.lines[0])
+            if not comp:
+                ok = False
+                R.viol(pfx + ".tx.signed", "element-missing:outputs", "bytes_to_sign: no use of the (key, content) elements of `outputs` found", bt, bt.lines[0])
         unsigned = sorted(set(fields) - set(covered))
         if unsigned != ["signature"]:
             ok = False
